@@ -17,6 +17,7 @@ import (
 //	[32,48)   target of memory.init from PASSIVE data segment 1 ("P<v>-passive-seg!")
 //	[64,80)   target of memory.fill (fill byte = current low byte of the store cell)
 //	[96,112)  target of memory.copy from [0,16)
+//	[112,120) written by the host functions of module "env" THROUGH THE api.Module THEY ARE HANDED
 //	[128,208) WASI scratch, initialised by active data segment 2 (iovecs, path "f")
 //	[65536..) marker written by `grow` into the first grown page
 //
@@ -29,6 +30,8 @@ const (
 	aInit   = 32
 	aFill   = 64
 	aCopy   = 96
+	aHostW1 = 112 // written by env.h_refl (reflection, ctx+module)
+	aHostW2 = 116 // written by env.h_gomod (WithGoModuleFunction)
 	aIovW   = 128 // {ptr=0,len=16}
 	aNWrit  = 136
 	aPath   = 144 // "f"
@@ -46,8 +49,7 @@ const (
 var opNames = []string{
 	"store",    // v=i32.load[8]; i32.store[8]=v*5+3+variant; returns v             (store / load)
 	"grow",     // memory.grow 1; on success i32.store[65536]=0xC0DE+old; returns old size or -1
-	"fill",     // memory.fill [64,80) with mem8[8]
-	"copy",     // memory.copy [96,112) <- [0,16)
+	"bulk",     // memory.fill [64,80) with mem8[8]; memory.copy [96,112) <- [0,16)            (memory.fill/copy)
 	"minit",    // memory.init seg1 -> [32,48)   (traps once seg1 is dropped)
 	"ddrop",    // data.drop seg1
 	"gset",     // old=g0; g0=g0*7+1; g1+=g0; returns old                              (global.set / get)
@@ -59,9 +61,13 @@ var opNames = []string{
 	"open",     // path_open(3,"f",read-only) then fd_read(4, 4 bytes -> [160,164)); returns e1<<16|fd<<8|e2
 	"close",    // fd_close(4)
 	"renumber", // fd_renumber(4 -> 5)
+	"host",     // calls the five functions of the shared host module "env" (every definition style) with v=mem32[8]; returns a fold
 	"entropy",  // clock_time_get(realtime), clock_time_get(monotonic), random_get(8): returns a digest
 	"exit",     // proc_exit(3)
 }
+
+// hostFuncNames are the exports of the host module "env" that every instance imports: one per definition style.
+var hostFuncNames = []string{"h_refl", "h_ctx", "h_none", "h_gomod", "h_go"}
 
 const peekName = "peek" // guest-view digest of everything; NOT a letter: called once per instance after every word
 
@@ -77,6 +83,10 @@ func guestModule(variant int) []byte {
 	procExit := m.ImportFunc(w, "proc_exit", []byte{i32}, nil)
 	clockGet := m.ImportFunc(w, "clock_time_get", []byte{i32, i64, i32}, []byte{i32})
 	randomGet := m.ImportFunc(w, "random_get", []byte{i32, i32}, []byte{i32})
+	var hostFns []uint32
+	for _, n := range hostFuncNames {
+		hostFns = append(hostFns, m.ImportFunc("env", n, []byte{i32}, []byte{i32}))
+	}
 
 	v := int32(variant)
 	m.Mem = &wb.Limits{Min: 1, Max: 3, HasMax: true}
@@ -106,12 +116,9 @@ func guestModule(variant int) []byte {
 		I32Const(aMarker).I32Const(0xC0DE).LocalGet(0).Op(0x6a).Mem(0x36, 2, 0).
 		End().
 		LocalGet(0).Op(0xac)) // i64.extend_i32_s
-	// fill
-	def("fill", nil, (&wb.Asm{}).
+	// bulk = fill + copy
+	def("bulk", nil, (&wb.Asm{}).
 		I32Const(aFill).I32Const(aStore).Mem(0x2d, 0, 0).I32Const(16).MemoryFill().
-		I64Const(0))
-	// copy
-	def("copy", nil, (&wb.Asm{}).
 		I32Const(aCopy).I32Const(0).I32Const(16).MemoryCopy().
 		I64Const(0))
 	// minit / ddrop
@@ -150,6 +157,16 @@ func guestModule(variant int) []byte {
 	// close, renumber
 	def("close", nil, ext((&wb.Asm{}).I32Const(4).Call(fdClose)))
 	def("renumber", nil, ext((&wb.Asm{}).I32Const(4).I32Const(5).Call(fdRenumber)))
+	// host: h = h*31 + f(mem32[8]) for every function of the shared host module
+	{
+		a := (&wb.Asm{}).I64Const(0).LocalSet(0)
+		for _, f := range hostFns {
+			a.LocalGet(0).I64Const(31).Op(0x7e).
+				I32Const(aStore).Mem(0x28, 2, 0).Call(f).Op(0xad).
+				Op(0x7c).LocalSet(0)
+		}
+		def("host", []byte{i64}, a.LocalGet(0))
+	}
 	// entropy
 	def("entropy", nil, (&wb.Asm{}).
 		I32Const(0).I64Const(0).I32Const(aClk0).Call(clockGet).Drop().
@@ -168,7 +185,7 @@ func guestModule(variant int) []byte {
 		load()
 		p.Op(0x7c).LocalSet(0)
 	}
-	for _, a := range []int32{0, 8, aInit, aInit + 8, aFill, aFill + 8, aCopy, aCopy + 8, aRdBuf, aFD, aClk0, aClk1, aRand} {
+	for _, a := range []int32{0, 8, aInit, aInit + 8, aFill, aFill + 8, aCopy, aCopy + 8, aHostW1, aRdBuf, aFD, aClk0, aClk1, aRand} {
 		a := a
 		mix(func() { p.I32Const(a).Mem(0x29, 0, 0) })
 	}
